@@ -123,6 +123,9 @@ TCaM == Agg(<<Fd(1, TCa, <<Z, Z, Z, Z, Z, Z, Z, Z, Z, Z, <<>>>>), Fd(2, I32, Z)>
 TCo == Agg(<<Fd(1, Vec(I32), <<>>), Fd(2, Vec(Str), <<>>), Fd(3, List(I64), <<>>), Fd(4, Arr(I32, 2), <<Z, Z>>),
              Fd(5, SetOf(U32), <<>>), Fd(6, Map(I32, Str), <<>>), Fd(7, Vec(Bool), <<>>), Fd(8, Vec(F32), <<>>),
              Fd(9, Arr(F64, 1), <<D0>>), Fd(10, Vec(TSt), <<>>)>>)
+\* boundary family: length-delimited members whose payload sits at a varint width boundary, tags of width 1 / 2 / 3
+TBS == Agg(<<Fd(1, Str, <<>>), Fd(15, Str, <<>>), Fd(16, Str, <<>>), Fd(2047, Str, <<>>), Fd(2048, Str, <<>>)>>)
+DBS == <<<<>>, <<>>, <<>>, <<>>, <<>>>>
 TCpSub == Agg(<<Fd(4, I32, Z), Fd(19, Str, <<>>), Fd(47, Vec(I32), <<>>)>>)
 TPbIn == Pb(<<Fd(1, Opt(I32), <<>>), Fd(2, Opt(Str), <<>>)>>)
 TPbSub == Pb(<<Fd(4, Opt(I32), <<>>), Fd(19, Opt(Str), <<>>), Fd(47, Rep(I32), <<>>)>>)
@@ -154,6 +157,10 @@ Def(nm) ==
                            Fd(47, Rep(I32), <<>>), Fd(48, Rep(I64), <<>>), Fd(51, Rep(U32), <<>>), Fd(52, Rep(U64), <<>>),
                            Fd(59, Rep(F32), <<>>), Fd(60, Rep(F64), <<>>), Fd(61, Rep(Enum), <<>>)>>)
     [] nm = "Wm" -> Agg(<<Fd(1, TPbIn, <<<<>>, <<>>>>), Fd(2, Uptr(TPbIn), <<>>), Fd(3, I32, Z)>>)
+    [] nm \in {"BS", "BSL"} -> TBS
+    [] nm \in {"BN", "BNL"} -> Agg(<<Fd(1, TBS, DBS), Fd(2, I32, Z)>>)
+    [] nm = "BM" -> Agg(<<Fd(2047, TBS, DBS), Fd(2048, Vec(I32), <<>>), Fd(15, I32, Z)>>)
+    [] nm = "BC" -> Agg(<<Fd(1, Vec(Str), <<>>), Fd(2, Vec(TSt), <<>>), Fd(3, Vec(I32), <<>>), Fd(16, List(Str), <<>>)>>)
     [] nm = "H1" -> TH1
     [] nm = "H2" -> Agg(<<Fd(1, Vec(I32), <<>>), Fd(2, TH1, <<<<7>>, <<>>>>)>>)
     [] nm = "H3" -> Agg(<<Fd(1, Vec(Str), <<>>), Fd(2, Map(I32, Str), <<>>)>>)
